@@ -17,6 +17,9 @@ case "$ID" in
   C01|C02|C03|C04|C05|C07|C08|C09|C10|C11|C12|C13|C16|C17|C18)
     build rel cargo build --release --offline
     exec "$B/rel/release/mc" "$ID" "$@" ;;
+  case)
+    build rel cargo build --release --offline
+    exec "$B/rel/release/mc" case "$@" ;;
   *)
     echo "MACHINERY: no check registered for $ID"; exit 2 ;;
 esac
